@@ -210,3 +210,13 @@ def _m_lower(self):
     with NoTracing():
         return LazyIntSymbolicStr(cps)
 _bl.AnySymbolicStr.lower = _m_lower
+
+# ---- bytearray(n) inside pycomm3.custom_types -> CrossHair's symbolic bytearray
+from crosshair.libimpl.builtinslib import SymbolicByteArray
+import pycomm3.custom_types as _ct
+def _sym_bytearray(arg=0):
+    if isinstance(arg, int):
+        with NoTracing():
+            return SymbolicByteArray([0] * arg)
+    return bytearray(arg)
+_ct.bytearray = _sym_bytearray
